@@ -572,7 +572,8 @@ pub fn generate(rng: &mut Rng, prop: &str, corpus: &[String]) -> CliCheck {
     }
     let mut code_args: Vec<Vec<String>> = Vec::new();
     for (i, f) in frags.iter().enumerate() {
-        if rng.chance(2, 5) || bad(f) || is_flag(f) {
+        // (a single argument may not exceed 128 KiB: long fragments always go into a file)
+        if rng.chance(2, 5) || bad(f) || is_flag(f) || f.len() > 50_000 {
             let name = format!("prog{}.bf", i);
             files.push((name.clone(), FileKind::Text(f.clone())));
             code_args.push(vec![rng.pick(&["-f", "--file", "-file"]).to_string(), name]);
@@ -604,6 +605,12 @@ pub fn generate(rng: &mut Rng, prop: &str, corpus: &[String]) -> CliCheck {
         }
         _ => {}
     }
+    // a faulty or extra file argument may sit anywhere among the code arguments
+    if code_args.len() > frags.len() {
+        let extra = code_args.pop().unwrap();
+        let at = rng.urange(0, code_args.len());
+        code_args.insert(at, extra);
+    }
     // interleave: flags in random positions among the code arguments, code order preserved
     let mut flag_groups: Vec<Vec<String>> = flags.into_iter().map(|f| vec![f]).collect();
     if with_limit {
@@ -616,6 +623,15 @@ pub fn generate(rng: &mut Rng, prop: &str, corpus: &[String]) -> CliCheck {
             _ => rng.range(2, 200).to_string(),
         };
         flag_groups.push(vec!["--limit".into(), n]);
+        if rng.chance(1, 4) {
+            // a second --limit: the last valid one wins, an invalid one is ignored
+            let m = match rng.below(3) {
+                0 => "oops".to_string(),
+                1 => rng.range(1, 60).to_string(),
+                _ => "".to_string(),
+            };
+            flag_groups.push(vec!["--limit".into(), m]);
+        }
     }
     let total = flag_groups.len() + code_args.len();
     let mut fi = 0;
